@@ -18,6 +18,8 @@ import (
 	"sort"
 	"strconv"
 	"strings"
+
+	"golang.org/x/tools/go/ssa"
 )
 
 var nameRe = regexp.MustCompile(`^[A-Za-z][A-Za-z0-9_]*$`)
@@ -369,6 +371,93 @@ func runC17(r *Run, verifDir string) {
 		_ = key
 	}
 	c20RegisterOnlyInInit(r, reg, "C17.N6")
+
+	// ---------------- N7 masks are bit sets, not numbers
+	r.Rule("C17.N7", "mask renderers and parsers never order-compare a mask value (<, <=, >, >=): bit 31 makes an int32 mask negative", 1)
+	nCmp, nFn := 0, 0
+	for _, fn := range p.OwnFuncs() {
+		id := idOf(fn)
+		top := fn
+		for top.Parent() != nil {
+			top = top.Parent()
+		}
+		tn := idOf(top).name
+		if !(id.pkg == ttlvPath || id.pkg == modPath) || !(strings.Contains(tn, "Bitmask") || strings.Contains(strings.ToLower(tn), "mask")) {
+			continue
+		}
+		if top.TypeParams().Len() > 0 && len(top.TypeArgs()) == 0 {
+			continue // the uninstantiated generic body: its instances are analysed
+		}
+		nFn++
+		ord := 0
+		allInstrs(fn, func(in ssa.Instruction) {
+			bo, ok := in.(*ssa.BinOp)
+			if !ok || !(bo.Op == token.LSS || bo.Op == token.LEQ || bo.Op == token.GTR || bo.Op == token.GEQ) {
+				return
+			}
+			isMask := func(v ssa.Value) bool {
+				t := v.Type()
+				if reg.MaskForType(t) != nil {
+					return true
+				}
+				// a value of the function's mask parameter type (signed 32-bit named type or type parameter instance)
+				if b, ok := t.Underlying().(*types.Basic); ok && b.Kind() == types.Int32 {
+					for _, prm := range top.Params {
+						if types.Identical(prm.Type(), t) {
+							if _, isNamed := t.(*types.Named); isNamed {
+								return true
+							}
+						}
+					}
+					// derived from the mask parameter by bit operations
+					var derives func(x ssa.Value, d int) bool
+					derives = func(x ssa.Value, d int) bool {
+						if d > 5 {
+							return false
+						}
+						switch y := x.(type) {
+						case *ssa.Parameter:
+							return reg.MaskForType(y.Type()) != nil || (y.Parent() == top && func() bool {
+								bb, ok := y.Type().Underlying().(*types.Basic)
+								return ok && bb.Kind() == types.Int32 && y.Name() != "tag"
+							}())
+						case *ssa.BinOp:
+							if y.Op == token.AND || y.Op == token.OR || y.Op == token.XOR || y.Op == token.AND_NOT || y.Op == token.SUB {
+								return derives(y.X, d+1) || derives(y.Y, d+1)
+							}
+						case *ssa.Phi:
+							for _, e := range y.Edges {
+								if e != x && derives(e, d+1) {
+									return true
+								}
+							}
+						case *ssa.Convert:
+							if bb, ok := y.Type().Underlying().(*types.Basic); ok && bb.Info()&types.IsUnsigned != 0 {
+								return false // converted to unsigned: ordering is harmless
+							}
+							return derives(y.X, d+1)
+						case *ssa.ChangeType:
+							return derives(y.X, d+1)
+						case *ssa.UnOp:
+							return derives(y.X, d+1)
+						}
+						return false
+					}
+					return derives(v, 0)
+				}
+				return false
+			}
+			if !isMask(bo.X) && !isMask(bo.Y) {
+				return
+			}
+			nCmp++
+			ord++
+			r.Bad("C17.N7", fmt.Sprintf("%s/mask-order-compare#%d", fnKey(fn), ord), bo.Pos(), "%s compares a bit mask with %s: a mask with bit 31 set is a negative int32, so the comparison stops or skips the rendering/parsing of every flag (the text forms carry an empty value and read back 0)", fnKey(fn), bo.Op)
+		})
+	}
+	if nCmp == 0 {
+		r.OK("C17.N7", "masks/no-order-compare", token.NoPos, "%d mask rendering/parsing function(s): no ordering comparison on a mask value", nFn)
+	}
 
 	// thorough: cross-check the reference against the OASIS vectors (data only)
 	if r.Tier == "thorough" {
